@@ -118,7 +118,7 @@ _ADDENDA = {
     "C01": " The initial state is handed over in C, Fortran and strided layouts.",
     "C03": " One-sided transforms are among the presentation variants; the plan system records the start time for which propagators are requested.",
     "C04": " Every configuration uses a complex Hermitian Hamiltonian; PT-TEBD runs include chain controls (a non-unital channel pre and post measurement, a unitary kick).",
-    "C07": " The plan system records the start time for which propagators are requested; the bath-dynamics cross-check covers all dagger orders, change_only, thermal and vacuum terms and first requests on a fresh object.",
+    "C07": " The plan system records the start time for which propagators are requested; the bath-dynamics cross-check covers all dagger orders, change_only, thermal and vacuum terms and first requests on a fresh object. SysCorrCache.tla models the incremental store of system correlations behind TwoTimeBathCorrelations (pad + append of the block compute_correlations returns; caller-supplied matrices); TLC checks Square / Covers / Aligned / Monotone over all request histories and that two deviations violate them; every history is replayed on a real object with a clock system and prime-valued coupling operator, the stored matrix decoded entry by entry to time pairs after every request and every answer compared with a fresh object's.",
     "C11": " Numerical parts: closed form of the commuting model for T = 0.08 .. 2.5 (1e-8); Hermiticity / positivity for non-commuting models; a re-used GibbsParameters object.",
     "C14": " Transient failures are raised by the Hamiltonian, the Lindblad rate or the Lindblad operator.",
     "C15": " Part (e): parameters estimated from a time-dependent system (guess_tempo_parameters) under a shift of the origin.",
